@@ -15,6 +15,7 @@ pub fn cmd_enc(a: &Args) {
     let threads = a.num("threads", 16);
     let model_cap = a.num("modelcap", 200000);
     let with_clauses_upto = a.num("clauses_upto", 9);
+    let pad = a.get("pad", "no") == "yes";
     let encs = ["aux_cf", "aux_adm", "aux_co", "exp_cf", "exp_co", "hybrid", "stable"];
     // the same encoder objects serve a whole chunk of frameworks (as the solvers do for successive components and queries)
     let chunk = a.num("chunk", 6);
@@ -28,9 +29,12 @@ pub fn cmd_enc(a: &Args) {
             (*e, b)
         }).collect();
         for (idx, spec) in specs {
-        let af = afio::build_compact(spec);
+        // padded: the framework plus 35-70 sinks (compact ids): only the complete-semantics and stable encoders are run, the intended
+        // family is lifted from the core by the judge
+        let af = if pad { afio::build_padded(spec, *idx as u64 + 77) } else { afio::build_compact(spec) };
+        let core_n = if pad { spec.n } else { 0 };
         let proj = afio::projection(&af);
-        lines.push(json!({"ev": "af", "idx": idx, "tag": spec.tag, "n": spec.n, "args": proj["args"], "att": proj["att"]}).to_string());
+        lines.push(json!({"ev": "af", "idx": idx, "tag": spec.tag, "n": af.n_arguments(), "args": proj["args"], "att": proj["att"]}).to_string());
         for (enc, e) in &encoders {
             let enc = *enc;
             for range in [false, true] {
@@ -39,6 +43,12 @@ pub fn cmd_enc(a: &Args) {
                 }
                 if enc == "exp_co" && crate::stat::exp_cost(&af) > 200_000.0 {
                     continue;
+                }
+                if pad && !["aux_co", "exp_co", "hybrid", "stable"].contains(&enc) {
+                    continue;
+                }
+                if pad && range && enc != "aux_co" {
+                    continue; // the range variables of the exp-style encodings are free for attacked arguments: 2^(number of sinks) models
                 }
                 let r = catch_unwind(AssertUnwindSafe(|| {
                     let ctl = Ctl::new(false, vec![]);
@@ -65,14 +75,14 @@ pub fn cmd_enc(a: &Args) {
                         projs.insert((s, rr));
                     }
                     // assignment_to_extension agrees with arg_to_lit on every model is checked by the solvers' checks; here the layout
-                    let with_clauses = spec.n <= with_clauses_upto;
-                    json!({"ev": "enc", "encoder": enc, "range": range, "nvars": nvars, "argvar": argvar, "rangevar": rangevar,
+                    let with_clauses = !pad && spec.n <= with_clauses_upto;
+                    json!({"ev": "enc", "encoder": enc, "range": range, "core_n": core_n, "nvars": nvars, "argvar": argvar, "rangevar": rangevar,
                         "nclauses": clauses.len(), "clauses": if with_clauses { clauses.clone() } else { vec![] }, "with_clauses": with_clauses,
                         "models": projs.iter().map(|(s, r)| json!([s, r])).collect::<Vec<_>>(), "nmodels": models.len(), "cut": cut, "panic": false})
                 }));
                 match r {
                     Ok(v) => lines.push(v.to_string()),
-                    Err(_) => lines.push(json!({"ev": "enc", "encoder": enc, "range": range, "nvars": 0, "argvar": [], "rangevar": [], "nclauses": 0,
+                    Err(_) => lines.push(json!({"ev": "enc", "encoder": enc, "range": range, "core_n": core_n, "nvars": 0, "argvar": [], "rangevar": [], "nclauses": 0,
                         "clauses": [], "with_clauses": false, "models": [], "nmodels": 0, "cut": false, "panic": true}).to_string()),
                 }
             }
